@@ -313,6 +313,33 @@ PROPS['C17'] = dict(
                "base64 taken at struct level; harness. Axioms: none.",
 )
 
+BRANCH_NAMES['nopanic'] = ['validate', 'outcome', 'reports', 'observation', 'mercury', 'decoders', 'evm-nil-values', 'panics']
+PROPS['C11'] = dict(
+    level='proof',
+    projections=[dict(name='nopanic', spec_index=1, n_quick=3000, n_thorough=100000),
+                 dict(name='evmcodec', spec_index=3, strict_index=4, n_quick=1500, n_thorough=40000)],
+    rule="nopanic: under recover(): ValidateObservation, Outcome (observations first filtered by the real ValidateObservation; previous outcome "
+         "random / structure-aware mutated / valid with missing aggregates; retirement report with and without channels), Reports (telemetry "
+         "channels set and unset, outcomes with missing and nil aggregates, formats without codec), Observation (arbitrary previous outcome), "
+         "Mercury v1-v4 Report (valid observations mixed with undecodable ones, mutated ones, arbitrary previous report; result compared with "
+         "the run without the garbage), 20 public decoders on random bytes, bit flips / truncations / duplicated spans of valid encodings, "
+         "hand-mutated protobuf messages (nil nested messages, unknown and negative enum values, duplicate fields), EVM and JSON codecs "
+         "with nil / wrong-kind values and unverified definitions; fixed witnesses for D4, B5 and the nil-map promotion. "
+         "evmcodec: see C12 (its panic list). Distinct by SHA-1 of the input.",
+    explanation="Theorems C11_* prove for all byte strings / inputs that the modelled decoders (observation, outcome, stream value, typed text, "
+                "JSON report), the LLO outcome step on observations that passed validation (with the refutation showing validation is needed), "
+                "the aggregators, Mercury v1-v4 Report and all six Mercury consensus functions, and the streamlined codec never reach a Panic "
+                "result; the premium-legacy codec only in the F4 region (refuted there: known finding). Invalid Mercury observations are "
+                "proved to be ignored. The models are tied to the code by the other projections; this projection runs every real entry "
+                "point on adversarial bytes under recover() and is the search for a failing input.",
+    assumptions=["an external report codec (Mercury) does not panic itself", "decimal exponents are int32 (as decoded)",
+                 "third-party byte decoders (protobuf-go, encoding/json, go-ethereum abi) are exercised, not modelled: PARTIAL"],
+    level_text="Coq theorems that the Panic result of every modelled entry point is unreachable (all inputs); third-party byte decoders are "
+               "only exercised under recover() (partial).",
+    level_note="Trusted: Coq kernel + vm_compute; hand-written models tied to the code by the history/outcodec/codecs16/mercreport/evmcodec/"
+               "textforms projections; harness recover() wrappers. Axioms: none. PARTIAL for third-party decoders.",
+)
+
 
 def load_known_findings(root):
     p = os.path.join(root, 'known_findings.jsonl')
